@@ -111,6 +111,21 @@ def huge_tracks():
     return out
 
 
+def block_tracks():
+    """sample counts at and around the block sizes a 'read the table in blocks' implementation would use (1024, 2048, 4096):
+    every table has that many entries (per-sample sizes, one sample per chunk / a few chunks, alternating durations)"""
+    out = []
+    for n in (1023, 1024, 1025, 2048, 4096):   # (the extracted model cannot evaluate tables of 65536 entries in its time limit)
+        for shape in (0, 1):
+            sizes = [(j * 7) % 5 for j in range(n)] if shape == 0 else [1 + j % 3 for j in range(n)]
+            chunks = [1] * n if shape == 0 and n <= 4096 else [n // 4, n // 4, n // 4, n - 3 * (n // 4)]
+            deltas = [10 + (j & 1) for j in range(n)] if shape == 0 else [7] * n
+            out.append([{"id": 1, "kind": "avc", "ts": 1000, "sizes": sizes, "chunks": chunks, "deltas": deltas, "cts": [(-1) ** j * (j % 3) for j in range(n)] if shape == 0 else None,
+                         "sync": list(range(1, n + 1, 2)) if shape == 0 else None, "co64": shape == 1, "stts_split": (lambda j: True) if shape == 0 else None,
+                         "ctts_split": (lambda j: True) if shape == 0 else None}])
+    return out
+
+
 def virtual_tracks():
     """tiny files whose run-length tables describe up to 2^32-1 samples (constant sample size, a few runs, a few chunks).  The tables cannot be
     enumerated, so the expected answers come from run_semantics below (14496-12 8.6.1.2, 8.7.3-8.7.5 evaluated on the runs), not from the model."""
@@ -227,6 +242,8 @@ def check(rep):
     n_ex = len(movies)
     movies += [random_tracks(rng, 120) for _ in range(400 if rep.tier == "quick" else 8000)]
     movies += huge_tracks()
+    n_small = len(movies)
+    movies += block_tracks()
     files = []
     for i, trs in enumerate(movies):
         layout = "moov_first" if i % 2 == 0 else "mdat_first"
@@ -243,13 +260,27 @@ def check(rep):
     distinct = set()
     for profile in ("debug", "release"):
         mode = "d" if profile == "debug" else "r"
-        impl_lines = [json.dumps({"cmd": "read", "file": d.hex(), "bytes": True, "base": b, "extra": 2, "max_samples": 200, "revisit": True}) for d, _, b, _ in files]
+        def ids_of(n):
+            if n <= 200:
+                return list(range(0, n + 3)) + [0x7fffffff, 0x80000000, 0xfffffffe, 0xffffffff]
+            # large tables: the first and last samples, both sides of every power of two, and a stride
+            ks = set(range(0, 6)) | set(range(n - 40, n + 3)) | set(range(1, n, max(1, n // 97)))
+            for e in range(8, 18):
+                ks |= {(1 << e) - 1, 1 << e, (1 << e) + 1}
+            return sorted(k for k in ks if 0 <= k <= n + 2) + [0xffffffff]
+        impl_lines = []
+        for d, trk, b, _ in files:
+            if any(len(t["sizes"]) > 200 for t in trk):
+                calls = [[kind, t["id"], k] for t in trk for k in ids_of(len(t["sizes"])) for kind in (("cnt", "off", "rs") if k == 0 else ("off", "rs"))]
+                impl_lines.append(json.dumps({"cmd": "read", "file": d.hex(), "bytes": True, "base": b, "calls": calls}))
+            else:
+                impl_lines.append(json.dumps({"cmd": "read", "file": d.hex(), "bytes": True, "base": b, "extra": 2, "max_samples": 200, "revisit": True}))
         impl_raw = common.harness_run("run", profile, impl_lines)
         mlines, midx = [], []
         for fi, (d, tracks, b, _) in enumerate(files):
             for t in tracks:
                 n = len(t["sizes"])
-                ids = list(range(0, min(n, 200) + 3)) + [0x7fffffff, 0x80000000, 0xfffffffe, 0xffffffff]
+                ids = ids_of(n)
                 # the model's stream is the file placed at stream position b: pass the data with b virtual zero bytes only when b is small
                 mlines.append(isogen.lookup_line(t["tables"], ids, mode, d.hex() if b == 0 else "-"))
                 midx.append((fi, t))
